@@ -21,6 +21,7 @@ ASSUMPTIONS = [
     "10-byte varints whose last byte carries bits beyond 2**64 are recorded, not judged (the property does not state them)",
     "ruff is replaced by an identity stand-in when the plugin formats the matrix schema",
 ]
+ANCHORS = ['dump_varint', 'encode_varint', 'size_varint', 'load_varint', 'decode_varint', '_preprocess_single', 'Message._postprocess_single', '_pack_fmt']
 FLOORS = {"quick": {"evaluations": 50000, "varint_checked": 50000, "decoder_inputs": 60000, "scalar_cases": 300},
           "thorough": {"evaluations": 2000000, "varint_checked": 2000000, "decoder_inputs": 60000, "scalar_cases": 1000}}
 SHARD_TIMEOUT = {"quick": 600, "thorough": 3600}
